@@ -322,7 +322,7 @@ func hasRecoverDefer(fn *ssa.Function) bool {
 				continue
 			}
 			cl := mc.Fn.(*ssa.Function)
-			rec := false
+			rec := 0 // recover() calls: exactly one (a second one, behind the first, yields nil: the panic is lost)
 			repanics := false
 			var target ssa.Value // the captured variable the recovered error is stored into
 			for _, cb := range cl.Blocks {
@@ -334,7 +334,7 @@ func hasRecoverDefer(fn *ssa.Function) bool {
 					}
 					if call, ok := cin.(*ssa.Call); ok {
 						if bi, ok := call.Call.Value.(*ssa.Builtin); ok && bi.Name() == "recover" {
-							rec = true
+							rec++
 						}
 					}
 					if st, ok := cin.(*ssa.Store); ok {
@@ -364,7 +364,7 @@ func hasRecoverDefer(fn *ssa.Function) bool {
 					}
 				}
 			}
-			if !rec || target == nil || repanics {
+			if rec != 1 || target == nil || repanics {
 				continue
 			}
 			// the variable must be the function's named error result: after a recovered panic the function returns
@@ -434,6 +434,21 @@ func ruleC20Helper(e *Env, h helperSpec) {
 	// what the wrapper hands to the verdict is what the user's method returned, result for result: data that came
 	// together with an error must still be there for the emptiness assertion to see
 	if safeFn != nil && userCall != nil {
+		// … and what the user's method is handed is what the wrapper was handed: its parameters as they came
+		argBad := ""
+		for _, a := range userCall.Call.Args {
+			if _, isParam := a.(*ssa.Parameter); !isParam {
+				argBad = "the wrapper hands the user's " + h.name + " " + a.String() + ", not its own parameter: the case is judged on another input than its own"
+			}
+		}
+		if _, isParam := userCall.Call.Value.(*ssa.Parameter); !isParam {
+			argBad = "the wrapper invokes " + h.name + " on something other than the value it was handed"
+		}
+		if argBad != "" {
+			e.S.Bad("C20.safe", flow.FnName(safeFn), "arguments", argBad, e.posOf(userCall), `{Data: " 1", Error: AnyError} with an unmarshaler that refuses a leading space`)
+		} else {
+			e.S.Ok("C20.safe", flow.FnName(safeFn), "arguments", "the user's "+h.name+" is invoked on the wrapper's own parameters, unchanged", e.posOf(userCall))
+		}
 		passBad := ""
 		n := 0
 		for _, b := range safeFn.Blocks {
@@ -669,27 +684,53 @@ func ruleC20Helper(e *Env, h helperSpec) {
 		// "a type lacking the interface" is a reason why an APPLICABLE case is not satisfied; cases restricted to the
 		// other direction are ignored: the test follows the direction filter (and, see "every case", is made for
 		// each applicable case, so no applicable case reaches the conversion untested)
+		// every FailNow on t — not just one of them — lies behind the filter, and reports the lack of the interface
+		// that carries the helper's method (a second report, in front of the loop or for another interface, fails
+		// tables the property wants passed)
 		behind := false
+		stray := ""
+		var passes []*ssa.BasicBlock
 		for _, call := range e.C.Calls(fn, flow.InRepo) {
 			if n := e.C.StaticCallee(&call.Call).Name(); n == "isForMarshal" || n == "isForUnmarshal" {
 				for _, r := range *call.Referrers() {
 					if iff, ok := r.(*ssa.If); ok {
-						pass := iff.Block().Succs[0]
-						for _, b := range fn.Blocks {
-							for _, in := range b.Instrs {
-								c2, ok := in.(*ssa.Call)
-								if ok && failNowT(c2) != nil && (pass == b || pass.Dominates(b)) {
-									behind = true
-								}
-							}
-						}
+						passes = append(passes, iff.Block().Succs[0])
 					}
 				}
 			}
 		}
+		for _, b := range fn.Blocks {
+			for _, in := range b.Instrs {
+				c2, ok := in.(*ssa.Call)
+				if !ok || failNowT(c2) == nil {
+					continue
+				}
+				in1 := false
+				for _, pass := range passes {
+					if pass == b || pass.Dominates(b) {
+						in1 = true
+					}
+				}
+				if in1 {
+					behind = true
+				} else {
+					stray = "a FailNow on t at " + e.posOf(c2) + " lies in front of the direction filter"
+				}
+				if len(b.Preds) == 1 {
+					if piff, isIf := b.Preds[0].Instrs[len(b.Preds[0].Instrs)-1].(*ssa.If); isIf && probeAnswer(e, piff.Cond) && !probeIfaceHas(e, piff.Cond, h.name) {
+						stray = "the FailNow on t at " + e.posOf(c2) + " reports the lack of an interface that does not declare " + h.name + ": a type that has the helper's interface is failed for lacking another"
+					}
+				}
+			}
+		}
+		if stray != "" {
+			behind = false
+		}
 		switch {
 		case !okIface:
 			e.S.Bad("C20.iface", site, "missing interface", why, pos, "")
+		case !behind && stray != "":
+			e.S.Bad("C20.iface", site, "missing interface", stray+" (every report of a missing interface is to follow the direction filter and concern the interface of "+h.name+")", pos, "every case OnlyUnmarshal, type without MarshalText")
 		case !behind:
 			e.S.Bad("C20.iface", site, "missing interface", "the interface test runs in front of the direction filter: a case restricted to the other direction is tested too, so a table without any applicable case is reported, and a satisfied one is cut short by an other-direction case", pos, "every case OnlyUnmarshal, type without MarshalText")
 		case !ifaceOK:
@@ -755,6 +796,20 @@ func ruleC20Helper(e *Env, h helperSpec) {
 						if x == in {
 							break
 						}
+					}
+				}
+				// … and it is part of that verdict: it is handed the obtained error, the produced data or the case's
+				// expectation, or it is the case's own predicate (a report placed behind the protected call for any other
+				// reason — a Custom field without a hook — fails a satisfied case)
+				if okPlace && !(isCall && failNowBlock(e, b)) {
+					part := fieldLoad(cc.Value, "Error")
+					for _, a := range cc.Args {
+						if a == errV || derivesFrom(a, errV) || isData(a) || fieldLoad(a, expectName) || fieldLoadUnconverted(a, expectName) {
+							part = true
+						}
+					}
+					if !part {
+						okPlace = false
 					}
 				}
 				// the report of a failed hook: assert.NoError(t, <the hook runner's error>)
@@ -984,6 +1039,8 @@ func ruleC20Helper(e *Env, h helperSpec) {
 			e.S.Bad("C20.hooks", site, "hooks", "a hook's error is not asserted with NoError on t, or its failure does not skip the case", pos, "")
 		case cfc == nil || !hasRecoverDefer(cfc):
 			e.S.Bad("C20.hooks", "test.callForCase", "recover", "callForCase does not protect the hook with a deferred recover", "", "")
+		case c20HookResult(cfc) != "":
+			e.S.Unk("C20.hooks", "test.callForCase", "result", "callForCase's result is not read as the hook's own error: "+c20HookResult(cfc)+" — a failing hook may go unreported", e.Pos(cfc))
 		default:
 			e.S.Ok("C20.hooks", site, "hooks", "Before → marshal call → After, each via callForCase (deferred recover), each asserted with NoError, failure skips the case", pos)
 		}
@@ -2132,4 +2189,130 @@ func sameCase(hook *ssa.Call, from *ssa.BasicBlock) bool {
 		}
 	}
 	return true
+}
+
+// c20HookResult: callForCase returns what the hook returned — one call of the function parameter, whose value is
+// the only thing stored into the error result or returned (nil only where the hook is nil), and no branch other
+// than the hook's nil test. Returns the reason why not ("" if it does).
+func c20HookResult(cfc *ssa.Function) string {
+	var hook *ssa.Parameter
+	for _, p := range cfc.Params {
+		if _, ok := p.Type().Underlying().(*types.Signature); ok {
+			hook = p
+		}
+	}
+	if hook == nil {
+		return "no function-typed parameter"
+	}
+	var call *ssa.Call
+	var nilEdge *ssa.BasicBlock // entered when the hook is nil
+	for _, b := range cfc.Blocks {
+		if b == cfc.Recover {
+			continue
+		}
+		for _, in := range b.Instrs {
+			switch x := in.(type) {
+			case *ssa.Call:
+				if x.Call.Value == ssa.Value(hook) {
+					if call != nil {
+						return "the hook is called more than once"
+					}
+					call = x
+				}
+			case *ssa.If:
+				bo, ok := x.Cond.(*ssa.BinOp)
+				if !ok || bo.X != ssa.Value(hook) || !flow.IsNilConst(bo.Y) || (bo.Op != token.EQL && bo.Op != token.NEQ) {
+					return "a branch on something other than the hook being nil"
+				}
+				nilEdge = b.Succs[map[token.Token]int{token.EQL: 0, token.NEQ: 1}[bo.Op]]
+			}
+		}
+	}
+	if call == nil {
+		return "the hook is not called"
+	}
+	underNil := func(b *ssa.BasicBlock) bool { return nilEdge != nil && len(nilEdge.Preds) == 1 && nilEdge.Dominates(b) }
+	for _, b := range cfc.Blocks {
+		if b == cfc.Recover {
+			continue
+		}
+		for _, in := range b.Instrs {
+			switch x := in.(type) {
+			case *ssa.Store:
+				if !types.Identical(x.Val.Type(), types.Universe.Lookup("error").Type()) {
+					continue
+				}
+				if x.Val != ssa.Value(call) && !(flow.IsNilConst(x.Val) && (underNil(b) || b == cfc.Blocks[0])) {
+					return "something other than the hook's result is stored into the error result"
+				}
+			case *ssa.Return:
+				for _, r := range x.Results {
+					if r == ssa.Value(call) {
+						continue
+					}
+					if ld, ok := r.(*ssa.UnOp); ok && ld.Op == token.MUL {
+						if _, isAlloc := ld.X.(*ssa.Alloc); isAlloc {
+							continue
+						}
+					}
+					if flow.IsNilConst(r) && underNil(b) {
+						continue
+					}
+					return "a return of something other than the hook's result"
+				}
+			}
+		}
+	}
+	return ""
+}
+
+// probeIfaceHas: the interface probed by cond (see probeAnswer) declares the method.
+func probeIfaceHas(e *Env, cond ssa.Value, method string) bool {
+	for i := 0; i < 3; i++ {
+		if u, ok := cond.(*ssa.UnOp); ok && u.Op == token.NOT {
+			cond = u.X
+			continue
+		}
+		break
+	}
+	has := func(t types.Type) bool {
+		it, ok := t.Underlying().(*types.Interface)
+		return ok && ifaceHasMethod(it, method)
+	}
+	castHas := func(v ssa.Value) bool {
+		c, ok := v.(*ssa.Call)
+		if !ok {
+			return false
+		}
+		f := c.Call.StaticCallee()
+		if f == nil || flow.Origin(f).Name() != "castToFunc" {
+			return false
+		}
+		for _, ta := range f.TypeArgs() {
+			if has(ta) {
+				return true
+			}
+		}
+		return false
+	}
+	switch x := cond.(type) {
+	case *ssa.Extract:
+		ta, ok := x.Tuple.(*ssa.TypeAssert)
+		return ok && has(ta.AssertedType)
+	case *ssa.Call:
+		_, at, ok := probeCall(e, x)
+		return ok && at != nil && has(at)
+	case *ssa.BinOp:
+		if castHas(x.X) {
+			return true
+		}
+		if ph, ok := x.X.(*ssa.Phi); ok {
+			for _, ed := range ph.Edges {
+				if castHas(ed) {
+					return true
+				}
+			}
+		}
+	}
+	return false
 }
